@@ -660,6 +660,23 @@ class Interp:
                 b = o['bytes']
                 if o['ty'] in ('&str', '&&str'):
                     return ('str', bytes(b).decode('utf-8', 'replace'))
+                tyname = o['ty']
+                isref = tyname.startswith('&')
+                base = tyname.lstrip('&').replace('mut ', '').strip()
+                adt = self.adts.get(base)
+                if adt and adt['kind'] == 'enum' and all(not v.get('fields') for v in adt['variants']):
+                    # a constant of a field-less enum (e.g. the promoted `&State::Variant` of a derived ==)
+                    n = max(1, min(len(b), adt.get('size', 1) or 1))
+                    d = int.from_bytes(bytes(b[:n]), 'little')
+                    hit = [(i, v) for i, v in enumerate(adt['variants']) if v['discr'] == d]
+                    if hit:
+                        val = ('agg', ('adt', base, hit[0][0], hit[0][1]['name']), ())
+                        if not isref:
+                            return val
+                        st.n['obj'] += 1
+                        root = ('O', 'constalloc#%d' % st.n['obj'])
+                        st.mem[root] = val
+                        return ('ref', root, ())
                 arr = ('agg', ('array',), tuple(C(8, x) for x in b))
                 st.n['obj'] += 1
                 root = ('O', 'constalloc#%d' % st.n['obj'])
